@@ -21,6 +21,10 @@ import VpnCloud.Proofs.C16More
   - A1 (log consistency, ideal AEAD `L1`): the ciphertext bytes a session emitted are viewed by `bodyOf` as what was sealed;
   - the two sessions start with the same master key reference (`L2`: the handshake's key agreement commutes, `masterKey_comm_of`);
   - public keys are 32-byte numbers (`< 2^256`), rotation ids stay below `2^64`.
+  Panics: the steps of the two-session system (`Op`) are the `.ok` / `.err` outcomes of the session operations; a panicking
+  `handle_message` (`take_prefix` on an empty plaintext; `derive_key(..).unwrap()` on a rotation message whose keys are not 32 bytes
+  long, `PeerCrypto.rotatePanics`) ends the run and is no step.  `RotPanic.honest_sessions_never_panic` shows that no datagram one of
+  the two sessions has emitted makes the other panic, so nothing is lost.
   NOT needed: freshness / injectivity of key material (`I3`): synchronisation needs only that equal symbolic keys get equal
   references; commutativity of the rotation key agreement is built into `Rot.K` (`K_comm`).
 -/
@@ -521,6 +525,12 @@ end
 
 section
 variable (env : CryptoEnv) (bodyOf : Init.BodyOf) (payloadOk : Bytes → Bool)
+
+/-- … and the same for the panic check that precedes it (`derive_key(..).unwrap()`, `PeerCrypto.rotatePanics`) -/
+theorem rotatePanics_tail_irrelevant (pc : PeerCrypto) (body t : Bytes) (m : RotMsg) (h : readRotMsg body = some m) :
+    PeerCrypto.rotatePanics pc (body ++ t) = PeerCrypto.rotatePanics pc body := by
+  unfold PeerCrypto.rotatePanics
+  rw [C16More.rotmsg_trailing_ignored body t m h, h]
 
 /-- **lockstep_session** (`C07More.lockstep_fresh` lifted to sessions, i.e. to arbitrary randomness): let `s` be reachable and let the
     sessions then run two rounds of the loss-free lock-step schedule — per round: the tick of `x` on which its rotate counter reaches
